@@ -269,6 +269,26 @@ def spell(n):
             if empty:
                 return {"k": "If", "ty": "()", "sp": n.get("sp"), "cond": {"k": "LetCond", "ty": "bool", "sp": n["scrut"].get("sp"), "pat": some["pat"], "init": n["scrut"]},
                         "then": _as_block(some["body"]), "canon": "match-option-unit"}
+    if k == "Match" and n.get("src") == "Normal" and len(n.get("arms", [])) == 2 and not n["arms"][0].get("guard") and not n["arms"][1].get("guard") \
+            and n["arms"][1]["pat"].get("k") == "Wild" and (n["scrut"].get("ty") or "").startswith("std::option::Option<"):
+        # `match opt { Some(S { flag: true }) => A, _ => B }` is `if opt.map_or(false, |q| q.flag) { A } else { B }`
+        p = n["arms"][0]["pat"]
+        if p.get("k") == "TupleStruct" and (p.get("path") or "").endswith("::Some") and len(p.get("pats", [])) == 1:
+            q = p["pats"][0]
+            if q.get("k") == "Struct" and (q.get("dk") or "") == "Struct" and len(q.get("fields", [])) == 1:
+                fl = q["fields"][0]
+                fp = fl.get("pat") or {}
+                if fp.get("k") == "Lit" and isinstance(fp.get("e"), dict) and fp["e"].get("lit") == "bool" and fp["e"].get("v") is True:
+                    _closure_counter[0] += 1
+                    bid = 900000 + _closure_counter[0]
+                    order = _STRUCT_FIELDS.get(q.get("path") or "", [])
+                    prm = {"k": "Bind", "ty": q.get("ty"), "sp": q.get("sp"), "name": "q", "id": bid, "mode": "BindingMode(No, Not)"}
+                    body = {"k": "Field", "ty": "bool", "sp": q.get("sp"), "name": fl["name"], "idx": order.index(fl["name"]) if fl["name"] in order else None,
+                            "base": {"k": "Path", "ty": q.get("ty"), "sp": q.get("sp"), "res": "local", "name": "q", "id": bid}}
+                    cl = {"k": "Closure", "ty": "{closure}", "sp": q.get("sp"), "def": None, "params": [prm], "body": body, "canon": "flag-pattern"}
+                    cond = {"k": "MethodCall", "ty": "bool", "sp": n.get("sp"), "method": "map_or", "path": "std::option::Option::<T>::map_or", "resolved": None, "local": False, "gargs": [],
+                            "recv": n["scrut"], "args": [{"k": "Lit", "lit": "bool", "v": False, "ty": "bool", "sp": n.get("sp")}, cl], "canon": "flag-pattern"}
+                    return {"k": "If", "ty": n.get("ty"), "sp": n.get("sp"), "cond": cond, "then": _as_block(n["arms"][0]["body"]), "else": _as_block(n["arms"][1]["body"]), "canon": "flag-pattern"}
     if k == "Match" and n.get("src") == "Normal" and len(n.get("arms", [])) == 2 and n["arms"][0].get("guard") is not None and not n["arms"][1].get("guard") \
             and n["arms"][1]["pat"].get("k") == "Wild" and n.get("ty") != "bool":
         # `match opt { Some(P) if G => A, _ => B }` with A not using P's bindings is `if opt.map_or(false, |P| G) { A } else { B }`
@@ -329,6 +349,10 @@ def spell(n):
                 return irrefutable(p["pat"])
             if p.get("k") == "Tuple":
                 return all(irrefutable(x) for x in p.get("pats", []))
+            if p.get("k") == "Struct" and (p.get("dk") or "") == "Struct":
+                return all(irrefutable(f_.get("pat") or {}) for f_ in p.get("fields", []))
+            if p.get("k") == "TupleStruct" and (p.get("dk") or "").startswith("Ctor(Struct"):
+                return all(irrefutable(x) for x in p.get("pats", []))
             return False
         if scrut is not None and some is not None and none is not None and irrefutable(some[0]) and sty.lstrip("&").startswith("std::option::Option<") and pure_expr(none) \
                 and not _contains(some[1], ("Ret", "Try", "Break", "Continue")) and not _contains(none, ("Ret", "Try", "Break", "Continue")):
@@ -357,6 +381,9 @@ def spell(n):
             cl = {"k": "Closure", "ty": "{closure}", "sp": some[1].get("sp"), "def": None, "params": [some[0]], "body": sb, "canon": "match-option"}
             return {"k": "MethodCall", "ty": n.get("ty"), "sp": n.get("sp"), "method": "map_or", "path": "std::option::Option::<T>::map_or", "resolved": None, "local": False,
                     "gargs": [], "recv": recv, "args": [nb, cl], "canon": "match-option"}
+    if k == "Call" and len(n.get("args", [])) == 1 and (n.get("path") or "") in ("std::convert::From::from",) and n.get("resolved") in _ENUM_CAST_FROMS and n.get("ty") in INT_RANGE:
+        # `u8::from(port)` through a local `impl From<Enum> for u8` whose body is `enum_value as u8` (num_enum's IntoPrimitive)
+        return {"k": "Cast", "ty": n.get("ty"), "sp": n.get("sp"), "e": n["args"][0], "canon": "from-enum"}
     if k == "Call" and len(n.get("args", [])) == 1 and (n.get("path") or "") in ("std::convert::From::from",) :
         dst = n.get("ty")
         src = tir.strip(n["args"][0]).get("ty") if n["args"][0].get("k") != "AddrOf" else None
@@ -1141,12 +1168,15 @@ def try_inline_let(root, blk, idx, let, mut_fields, param_tys):
     in_loop = False
     for si, s, x in uses:
         par = parents_of(s)
+        child = x
         a = par.get(id(x))
+        top = s
         while a is not None:
-            if a.get("k") in ("Closure", "Loop", "For"):
+            # the iterator expression of a `for` is evaluated once, before the loop
+            if a.get("k") in ("Closure", "Loop") or (a.get("k") == "For" and a.get("iter") is not child):
                 in_loop = True
-            a = par.get(id(a))
-        if s.get("k") in ("Closure", "Loop", "For"):
+            child, a = a, par.get(id(a))
+        if s.get("k") in ("Closure", "Loop") or (s.get("k") == "For" and s.get("iter") is not child and child is not s):
             in_loop = True
     if in_loop and not (pure_expr(init) and total_expr(init)):
         return False
@@ -1411,10 +1441,23 @@ def match_to_try(root):
             v = eb
         else:
             return None
-        if not (v.get("k") == "Call" and (v.get("path") or "").endswith("::Err") and len(v.get("args", [])) == 1 and passes_err(v["args"][0], ep.get("id"))):
+        if not (v.get("k") == "Call" and (v.get("path") or "").endswith("::Err") and len(v.get("args", [])) == 1):
             return None
         payload = okp.get("ty") or ""
-        tr = {"k": "Try", "ty": payload, "sp": m["scrut"].get("sp"), "e": m["scrut"], "canon": "match-try"}
+        scrut = m["scrut"]
+        if not passes_err(v["args"][0], ep.get("id")):
+            # `Err(e) => return Err(f(e).into())` with f a function: `scrut.map_err(f)?`
+            c = tir.strip(v["args"][0])
+            while (c.get("k") == "MethodCall" and c.get("method") == "into" and not c.get("args")) or (c.get("k") == "Call" and len(c.get("args", [])) == 1 and (c.get("path") or "").endswith("From::from")):
+                c = tir.strip(c["recv"] if c.get("k") == "MethodCall" else c["args"][0])
+            if not (c.get("k") == "Call" and c.get("res") == "def" and (c.get("dk") or "") in ("Fn", "AssocFn") and len(c.get("args", [])) == 1 and passes_err(c["args"][0], ep.get("id"))
+                    and tir.strip(c["args"][0]).get("k") == "Path"):
+                return None
+            fpath = {k_: v_ for k_, v_ in c.items() if k_ not in ("args", "k")}
+            fpath.update({"k": "Path", "ty": c.get("fty") or "fn", "sp": c.get("sp")})
+            scrut = {"k": "MethodCall", "ty": "std::result::Result<%s, %s>" % (payload, c.get("ty")), "sp": m["scrut"].get("sp"), "method": "map_err", "path": "std::result::Result::<T, E>::map_err",
+                     "resolved": None, "local": False, "gargs": [], "recv": m["scrut"], "args": [fpath], "canon": "match-try"}
+        tr = {"k": "Try", "ty": payload, "sp": m["scrut"].get("sp"), "e": scrut, "canon": "match-try"}
         ob = unblock(ok["body"])
         if okp.get("k") == "Bind" and ob.get("k") == "Path" and ob.get("res") == "local" and ob.get("id") == okp.get("id"):
             return tr             # `Ok(x) => x`: the match is the `?` expression itself
@@ -1458,6 +1501,44 @@ def match_to_try(root):
                 m.clear()
                 m.update(new_node)
                 n_done += 1
+    # in tail position the Result combinators are the `?` forms: `x.map(F)` is `Ok(F(x?))`, `x.map(|p| V)` is `{ let p = x?; Ok(V) }`,
+    # `x.and_then(|p| R)` is `{ let p = x?; R }` (the error type of x is the function's own: `map` / `and_then` keep it)
+    for m in list(tir.walk(root)):
+        if not (m.get("k") == "MethodCall" and m.get("method") in ("map", "and_then") and m.get("_tail") is not None and len(m.get("args", [])) == 1
+                and (m["recv"].get("ty") or "").startswith("std::result::Result<") and (m.get("ty") or "").startswith("std::result::Result<")
+                and (m.get("path") or "").startswith("std::result::Result")):
+            continue
+        a = tir.strip(m["args"][0])
+        pay = re.match(r"std::result::Result<(.*), [^,]+>$", m["recv"].get("ty") or "")
+        opay = re.match(r"std::result::Result<(.*), [^,]+>$", m.get("ty") or "")
+        tr = {"k": "Try", "ty": pay.group(1) if pay else "()", "sp": m["recv"].get("sp"), "e": m["recv"], "canon": "tail-monad"}
+        tl = m.get("_tail")
+        new_node = None
+        if m["method"] == "map" and a.get("k") == "Path" and a.get("res") == "def" and (a.get("dk") or "").startswith("Ctor"):
+            inner = {k_: v_ for k_, v_ in a.items() if k_ not in ("k", "ty", "aty")}
+            inner.update({"k": "Call", "ty": opay.group(1) if opay else None, "args": [tr], "canon": "tail-monad"})
+            new_node = {"k": "Call", "ty": m.get("ty"), "sp": m.get("sp"), "res": "def", "dk": "Ctor(Variant, Fn)", "path": "std::prelude::v1::Ok", "args": [inner], "canon": "tail-monad", "_tail": tl}
+        elif a.get("k") == "Closure" and len(a.get("params", [])) == 1 and not _contains(a["body"], ("Ret", "Break", "Continue", "Try")):
+            let = {"k": "Let", "sp": m.get("sp"), "mac": [], "pat": a["params"][0], "init": tr, "els": None}
+            body = a["body"]
+            if m["method"] == "map":
+                tail = {"k": "Call", "ty": m.get("ty"), "sp": m.get("sp"), "res": "def", "dk": "Ctor(Variant, Fn)", "path": "std::prelude::v1::Ok", "args": [body], "canon": "tail-monad", "_tail": tl}
+            else:
+                tail = body
+                inner_t = tail
+                while inner_t.get("k") == "Block" and inner_t.get("tail") is not None:
+                    inner_t = inner_t["tail"]
+                inner_t["_tail"] = tl
+            new_node = {"k": "Block", "ty": m.get("ty"), "sp": m.get("sp"), "stmts": [let], "tail": tail, "canon": "tail-monad"}
+        if new_node is not None:
+            m.clear()
+            m.update(new_node)
+            n_done += 1
+    for blk in list(tir.walk(root)):
+        while blk.get("k") == "Block" and isinstance(blk.get("tail"), dict) and blk["tail"].get("k") == "Block" and blk["tail"].get("canon") == "tail-monad":
+            t = blk["tail"]
+            blk["stmts"] = list(blk.get("stmts", [])) + list(t.get("stmts", []))
+            blk["tail"] = t.get("tail")
     for blk in list(tir.walk(root)):
         if blk.get("k") != "Block":
             continue
@@ -1769,7 +1850,7 @@ def inline_new_consts(doc, pinned_consts):
     new = {}
     newx = {}
     for p, b in bodies.items():
-        if p in pinned_consts or "Const" not in b["kind"] or p.startswith("<") or "num_enum" in p or "_serde" in p or "::_::" in p or "{" in p:
+        if p in pinned_consts or not b["kind"].startswith(("Const", "AssocConst")) or p.startswith("<") or "num_enum" in p or "_serde" in p or "::_::" in p:
             continue
         ty = b["tir"]["value"].get("ty")
         if ty in INT_RANGE:
@@ -1891,6 +1972,169 @@ def drop_noop_statements(root):
     return n
 
 
+# ------------------------------------------------------------------------------------------------ P: destructuring patterns
+
+def _struct_pat(p):
+    """(struct pattern, [(field name, sub-pattern)]) when p is `S { a, b, .. }` / `S(a, b, _)` of a struct (possibly behind
+    `&`), every sub-pattern being a plain immutable by-value binding or `_`; None otherwise"""
+    if not isinstance(p, dict):
+        return None
+    while p.get("k") == "Ref":
+        p = p.get("pat") or {}
+    if p.get("k") == "Struct" and (p.get("dk") or "") == "Struct":
+        fields = [(f["name"], f["pat"]) for f in p.get("fields", [])]
+    elif p.get("k") == "TupleStruct" and (p.get("dk") or "").startswith("Ctor(Struct"):
+        fields = [(str(i), q) for i, q in enumerate(p.get("pats", []))]
+    else:
+        return None
+    for _, q in fields:
+        if q.get("k") == "Wild":
+            continue
+        if q.get("k") != "Bind" or q.get("sub") or (q.get("mode") or "") != "BindingMode(No, Not)":
+            return None
+    return p, fields
+
+
+def destructure_patterns(t):
+    """P: `let S { a, b, .. } = x;` / `let S(a, b, _) = *x;` / `|(i, S { a, .. })|` / `for S { a, .. } in ..` bind the fields of
+    one value: the bindings are replaced by projections `x.a` of that value (of a fresh immutable binding of it when it is not
+    already an immutable local or a shared reference), which is what the pinned tree writes"""
+    root = t["value"]
+    ids = [x.get("id") for x in tir.walk(root) if isinstance(x.get("id"), int)]
+    for p in t.get("params", []):
+        ps = []
+        binding_pats(p, ps)
+        ids += [q["id"] for q in ps if isinstance(q.get("id"), int)]
+    for n in tir.walk(root):
+        if n.get("k") in ("Let", "LetCond", "For"):
+            ps = []
+            binding_pats(n.get("pat"), ps)
+            ids += [q["id"] for q in ps if isinstance(q.get("id"), int)]
+        if n.get("k") == "Closure":
+            for p in n.get("params", []):
+                ps = []
+                binding_pats(p, ps)
+                ids += [q["id"] for q in ps if isinstance(q.get("id"), int)]
+    fresh = [max(ids + [0]) + 1000]
+    subst = {}
+    count = [0]
+    immut = {}
+    for p in t.get("params", []):
+        if p.get("k") == "Bind":
+            immut[p.get("id")] = p
+    for n in tir.walk(root):
+        if n.get("k") == "Let" and (n.get("pat") or {}).get("k") == "Bind":
+            immut[n["pat"].get("id")] = n["pat"]
+
+    def new_bind(ty, name, sp):
+        fresh[0] += 1
+        return {"k": "Bind", "ty": ty, "sp": sp, "name": name, "id": fresh[0], "mode": "BindingMode(No, Not)", "canon": "destructured"}
+
+    def register(fields, base, base_is_ref, spath=None):
+        order = _STRUCT_FIELDS.get(spath or "", [])
+        for fname, q in fields:
+            if q.get("k") == "Bind":
+                idx = int(fname) if fname.isdigit() else (order.index(fname) if fname in order else None)
+                subst[q["id"]] = (base, fname, q.get("ty"), base_is_ref, idx)
+
+    def replace_sub(holder, key):
+        """holder[key] is a pattern: replace struct sub-patterns nested inside tuples / refs by fresh bindings"""
+        p = holder[key]
+        if not isinstance(p, dict):
+            return
+        sp_ = _struct_pat(p)
+        if sp_ is not None:
+            inner, fields = sp_
+            if not any(q.get("k") == "Bind" for _, q in fields):
+                return
+            bty = p.get("ty")
+            ftys = _STRUCT_FIELD_TYS.get(inner.get("path") or "", {})
+            if p.get("k") != "Ref" and any(q.get("k") == "Bind" and (q.get("ty") or "").startswith("&") and not (ftys.get(fn_) or "&").startswith("&") for fn_, q in fields):
+                bty = "&" + (bty or "")         # matched through a reference (default binding modes): the value bound is the reference
+            nb = new_bind(bty, "d%d" % count[0], p.get("sp"))
+            count[0] += 1
+            holder[key] = nb
+            base = {"k": "Path", "ty": nb["ty"], "sp": p.get("sp"), "res": "local", "name": nb["name"], "id": nb["id"]}
+            register(fields, base, (nb["ty"] or "").startswith("&"), inner.get("path"))
+            return
+        if p.get("k") == "Tuple":
+            for i in range(len(p.get("pats", []))):
+                replace_sub(p["pats"], i)
+
+    for n in list(tir.walk(root)):
+        k = n.get("k")
+        if k == "Let" and not n.get("els") and n.get("init") is not None:
+            sp_ = _struct_pat(n.get("pat"))
+            if sp_ is not None and any(q.get("k") == "Bind" for _, q in sp_[1]):
+                init = n["init"]
+                b = tir.strip(init)
+                while b.get("k") == "Unary" and b.get("op") == "Deref" and not b.get("overloaded"):
+                    b = tir.strip(b["e"])
+                ok_base = False
+                if b.get("k") == "Path" and b.get("res") == "local":
+                    ty = b.get("ty") or ""
+                    bp = immut.get(b.get("id"))
+                    ok_base = (ty.startswith("&") and not ty.startswith("&mut")) or (bp is not None and (bp.get("mode") or "") == "BindingMode(No, Not)" and not ty.startswith("&mut"))
+                if ok_base:
+                    register(sp_[1], b, (b.get("ty") or "").startswith("&"), sp_[0].get("path"))
+                    n["canon_drop"] = True
+                else:
+                    nb = new_bind(init.get("ty"), "d%d" % count[0], n["pat"].get("sp"))
+                    count[0] += 1
+                    n["pat"] = nb
+                    base = {"k": "Path", "ty": nb["ty"], "sp": nb.get("sp"), "res": "local", "name": nb["name"], "id": nb["id"]}
+                    register(sp_[1], base, (nb["ty"] or "").startswith("&"), sp_[0].get("path"))
+            elif (n.get("pat") or {}).get("k") == "Tuple":
+                replace_sub(n, "pat")
+        elif k == "For":
+            replace_sub(n, "pat")
+        elif k == "Closure":
+            for i in range(len(n.get("params", []))):
+                replace_sub(n["params"], i)
+    if not subst:
+        return 0
+
+    def f(x):
+        if x.get("k") == "Path" and x.get("res") == "local" and x.get("id") in subst:
+            base, fname, ty, is_ref, idx = subst[x["id"]]
+            fty = ty
+            out = {"k": "Field", "ty": fty, "sp": x.get("sp"), "name": fname, "idx": idx, "base": copy.deepcopy(base), "canon": "destructured"}
+            if is_ref and (ty or "").startswith("&"):
+                out["ty"] = ty[1:].strip()
+                out["aty"] = ty
+            if x.get("aty"):
+                out["aty"] = x["aty"]
+            return out
+        return x
+    t["value"] = rewrite(t["value"], f)
+    for blk in tir.walk(t["value"]):
+        if blk.get("k") == "Block" and any(s_.get("canon_drop") for s_ in blk.get("stmts", [])):
+            blk["stmts"] = [s_ for s_ in blk["stmts"] if not s_.get("canon_drop")]
+    return len(subst)
+
+
+_ENUM_CAST_FROMS = set()
+_STRUCT_FIELDS = {}
+_STRUCT_FIELD_TYS = {}
+
+
+def enum_cast_froms(doc):
+    """local `impl From<E> for <int>` functions whose whole body is `param as <int>`"""
+    out = set()
+    for b in doc["bodies"]:
+        p = b.get("path") or ""
+        if b.get("tir") and b["kind"] in ("Fn", "AssocFn") and "<impl std::convert::From<" in p and p.endswith("::from"):
+            t = b["tir"]
+            v = tir.strip(t["value"])
+            while v.get("k") == "Block" and not v.get("stmts") and v.get("tail") is not None:
+                v = tir.strip(v["tail"])
+            if v.get("k") == "Cast" and v.get("ty") in INT_RANGE and len(t["params"]) == 1 and t["params"][0].get("k") == "Bind":
+                e = tir.strip(v["e"])
+                if e.get("k") == "Path" and e.get("res") == "local" and e.get("id") == t["params"][0].get("id"):
+                    out.add(p)
+    return out
+
+
 def canonicalise(doc):
     with open(os.path.join(VERIF, "rules", "anchors.json")) as fh:
         adoc = json.load(fh)
@@ -1904,7 +2148,19 @@ def canonicalise(doc):
     kc = inline_new_consts(doc, set(adoc.get("consts", [])))
     if kc:
         doc["_inlined_consts"] = kc
+    _STRUCT_FIELDS.clear()
+    for st in doc["items"].get("structs", []):
+        _STRUCT_FIELDS[st["path"]] = [f_["name"] for f_ in st.get("fields", [])]
+        _STRUCT_FIELD_TYS[st["path"]] = {f_["name"]: f_.get("ty") for f_ in st.get("fields", [])}
+    n_pat = 0
+    for b in doc["bodies"]:
+        if b.get("tir") and b["kind"] in ("Fn", "AssocFn") and "_serde" not in b["path"] and "num_enum" not in b["path"] and "::_::" not in b["path"]:
+            n_pat += destructure_patterns(b["tir"])
+    if n_pat:
+        doc["_destructured_bindings"] = n_pat
     n_guards = 0
+    _ENUM_CAST_FROMS.clear()
+    _ENUM_CAST_FROMS.update(enum_cast_froms(doc))
     _ERR_FNS.clear()
     _ERR_FNS.update(always_err_fns(doc))
     for b in doc["bodies"]:
@@ -1930,6 +2186,12 @@ def canonicalise(doc):
     for b in doc["bodies"]:
         if b.get("tir"):
             b["tir"]["value"] = rewrite(b["tir"]["value"], spell)
+    # closures produced by the O step can carry a struct pattern as their parameter (`Some(End { bytes, .. }) => ..`)
+    for b in doc["bodies"]:
+        if b.get("tir") and b["kind"] in ("Fn", "AssocFn") and "_serde" not in b["path"] and "num_enum" not in b["path"] and "::_::" not in b["path"]:
+            n_pat += destructure_patterns(b["tir"])
+    if n_pat:
+        doc["_destructured_bindings"] = n_pat
     renamed, inlined = align_and_inline(doc, anchors)
     if rep:
         doc["_inlined_helpers"] = rep
